@@ -38,11 +38,11 @@ Proof. vm_compute. auto. Qed.
 (* lex_render: local --[=[ ]=] x = "a\n" .. [[<CR LF>z]] -- done <CR>  with \f, \v, comments *)
 Definition ex_items : list (sep * lexeme) :=
   [ ([SpBlank 12; SpLine [91; 61; 61; 32; 104] NlCRLF], LxName [108; 111; 99; 97; 108]);
-    ([SpBlock 1 [93; 93; 10; 93; 61]], LxName [120]);
+    ([SpBlock 1 [93; 93; 10; 61]], LxName [120]);
     ([], LxSym 61);
     ([SpNl NlLF; SpNl NlCR; SpBlank 11], LxString 34 [SiChar 97; SiEsc 110; SiEscNl NlLFCR; SiDec 0 6 5]);
     ([], LxSym T2Comma);
-    ([SpBlank 32], LxLong 0 [13; 10; 122; 93]);
+    ([SpBlank 32], LxLong 0 [13; 10; 122]);
     ([], LxSym 45);
     ([SpBlank 32], LxNumber [49; 46; 53; 101; 45; 51]) ].
 Definition ex_trailer : sep := [SpLine [32; 100; 111; 110; 101] NlCR].
